@@ -1,6 +1,8 @@
 import EaselModel.Sqio.NoFault
 import EaselModel.Sqio.DriverLogic
 import EaselModel.Sqio.Totality
+import EaselModel.Sqio.BlockSpec
+import EaselModel.Sqio.WindowSpec
 /-! # C02 — sequence-file input is total: any bytes give a normal outcome
 
 Property theorems only (proofs are glue on `Sqio/Refine.lean`, `Sqio/NoFault.lean`).
@@ -15,9 +17,12 @@ inside the file and inside `mem` (`loadbuf_total`), `nextchar` — the only prim
 never skips or repeats a byte (`nextchar_total`), `seebuf` — the residue scanner of all five read calls — never faults, never
 leaves the buffer and rejects every byte ≥ 0x80 before it is used as an index (`seebuf_total`), and the two input maps that
 `seebuf` and the digital `addbuf` use classify every symbol consistently (`inmaps_agree`, re-checked against the regenerated
-tables on every run). NOT proved (named here, tied by the differential run + sanitizer build + record monitor): the composition
-of these primitives through `header_fasta` / `read_nres` / `sqascii_Read*` (fuel-bounded loops in the model), the line-based
-formats, the guessers and the alignment-as-sequences branch. -/
+tables on every run); and, composed through `header_fasta` / `seebuf` / `addbuf` / `end_fasta`: `sqascii_Read`, `ReadInfo`, `ReadSequence` and the
+whole-sequence `ReadBlock` are total for EVERY byte string (`read_total`, `readInfo_total`, `readSequence_total`, `read_all_total`,
+`readBlock_total`): status `eslOK` / `eslEOF` / `eslEFORMAT` (with a message), never `fault`, every record well formed. `read_nres` /
+`ReadWindow` are total on records whose data is clean (`read_nres_total`); NOT proved (tied by the differential run + sanitizer build +
+record monitor): `read_nres` / `ReadWindow` on data holding an illegal byte, the line-based formats, the guessers and the
+alignment-as-sequences branch. -/
 namespace EaselModel.Props.C02
 open EaselModel.Sqio EaselModel.Sqio.Refine EaselModel.Sqio.NoFault
 
@@ -110,5 +115,31 @@ example (bytes : Bytes) (B abc : Nat) (hB : 1 ≤ B) (habc : abc ∈ [0, 1, 2, 3
 /-- a malformed file (`>` `\n` `A`: a record without a name) with B = 1 in text mode: the closed form says `eslEFORMAT` -/
 example : (ParseFasta.parseFasta 0 #[62, 10, 65]).2 = Status.eformat ∧ (ParseFasta.parseFasta 0 #[62, 10, 65]).1.length = 0 := by
   decide +kernel
+
+
+open EaselModel.Sqio.BlockSpec in
+/-- **`sqascii_ReadBlock` (whole-sequence mode) is total for every byte string and every block size**: from a ready handle and a block
+    of reused slots it never faults (no access outside a buffer or an allocation, in any of the `sqascii_Read` calls it makes), and it
+    reports the block as complete -/
+theorem readBlock_total (dig : Bool) (abc : Nat) (a : Ascii) (b : Block) (maxRes maxSeq : Int) (maxInit : Bool)
+    (H : HReady a (if dig then abcInmap abc else a.inmap)) (hls : b.listSize ≤ b.list.size)
+    (hslot : ∀ j, j < blockMaxSeq b maxSeq → SlotOk dig abc (b.list.getD j {})) :
+    (readBlock a b maxRes maxSeq maxInit false).2.2 ≠ .fault ∧ (readBlock a b maxRes maxSeq maxInit false).2.1.complete = true := by
+  obtain ⟨_, _, _, h4, h5, _⟩ := BlockSpec.readBlock_short_spec dig abc a b maxRes maxSeq maxInit H hls hslot
+  exact ⟨h5, h4⟩
+
+open EaselModel.Sqio.BodySpec EaselModel.Sqio.WindowSpec in
+/-- **`read_nres(sqfp, sq, 0, W)` — the residue reader of `ReadWindow` — on clean data, for every block size**: status `eslOK` or
+    `eslEOD`, never `fault`; the handle stays well formed (the cursor inside the file and the buffer) -/
+theorem read_nres_total (a : Ascii) (sq : Sq) (W : Nat) (hW : 1 ≤ W) (w : Refine.WF a) (tok : Fold.Track.Ok a.trk) (hm : a.inmap.size = 128)
+    (heof : a.eofIsOk = true) (hmap : MapOk a.inmap (mapOf a sq)) (hclean : Clean a.inmap (DataScan.fileFrom a))
+    (hcap : sq.seq.size + W + (if sq.digital then 2 else 1) ≤ sq.salloc) :
+    ((readNres a sq 0 W).2.2.1 = .ok ∨ (readNres a sq 0 W).2.2.1 = .eod) ∧ Refine.WF (readNres a sq 0 W).1 := by
+  obtain ⟨_, _, r3, r4, _⟩ := WindowSpec.readNres_zero_spec a sq W hW w tok hm heof hmap hclean hcap
+  refine ⟨?_, r4⟩
+  rw [r3]
+  split
+  · exact Or.inr rfl
+  · exact Or.inl rfl
 
 end EaselModel.Props.C02
